@@ -106,7 +106,6 @@ class Repo:
         self._inline_new_helpers()
         if not os.environ.get("VERIF_NO_INLINE"):
             from .normalize import normalize_table_driven, apply_synonyms
-            self.unrolled = normalize_table_driven(self)
             self.synonym_rewrites = apply_synonyms(self)
             from .peval import partial_evaluate
             self.partially_evaluated = partial_evaluate(self)
